@@ -122,8 +122,8 @@ CLAIMED["C15"] = (
 
 CLAIMED["C16"] = (
     "bounded symbolic execution of AffineTransformation (apply / as_matrix) and of superimpose()'s centring and mask logic (superimpose.py loaded through the SX rewrite, rotation solver replaced by an arbitrary symbolic matrix) over exact rationals with z3 (polynomial identities)",
-    "Bounded model checking of the ALGEBRAIC clauses of the property only. Class S: for any 3x3 matrix, translations and coordinates (symbolic rationals), apply(x) = R(x + c) + t per model, equal to the 4x4 matrix form; superimpose() with any rotation places the anchor centroid of the mobile structure on that of the fixed one, for every anchor mask of the bound, for arrays and stacks, and the returned transformation reproduces the fitted coordinates.",
-    "Trusted: vf/sx/rnp.py, the rational numpy stand-in (counterexamples are replayed on real numpy), z3. NOT covered (LAPACK behind FFI, float32): that the rotation is proper and RMSD-optimal (SVD + reflection correction in _get_rotation_matrices), RMSD values, zero RMSD for rigid copies incl. degenerate point sets, superimpose_without_outliers / superimpose_homologs anchor logic. These clauses are undecided by this check.",
+    "Bounded model checking of the ALGEBRAIC clauses of the property only. Class S: for any 3x3 matrix, translations and coordinates (symbolic rationals), apply(x) = R(x + c) + t per model, equal to the 4x4 matrix form; superimpose() with any rotation places the anchor centroid of the mobile structure on that of the fixed one, for every anchor mask of the bound, for arrays and stacks, and the returned transformation reproduces the fitted coordinates. Class E (real numpy / LAPACK on solver-selected concrete inputs): rigid copies of 7 degenerate and regular point sets under 25 rotations are fitted back with a proper orthonormal rotation and RMSD ~ 0 (off-plane atoms are not mirrored); superimpose_without_outliers returns the fit that belongs to its returned anchors (72 parameter combinations).",
+    "Trusted: vf/sx/rnp.py, the rational numpy stand-in (counterexamples are replayed on real numpy), z3; numpy/LAPACK in the E part. NOT decided: RMSD-optimality of the rotation for non-rigid inputs (only necessary conditions: proper rotation, coinciding anchor centroids, exact recovery of rigid copies), RMSD values, superimpose_homologs anchor selection. Those clauses are undecided by this check.",
     "DESIGN.md §4 C16")
 
 NOT_APPLICABLE = {
